@@ -147,8 +147,28 @@ func (f *TF) BV(w int, v *big.Int) *Term {
 }
 func (f *TF) BVi(w int, v int64) *Term   { return f.BV(w, big.NewInt(v)) }
 func (f *TF) BVu(w int, v uint64) *Term  { return f.BV(w, new(big.Int).SetUint64(v)) }
-func (f *TF) IntC(v int64) *Term         { return f.intern(&Term{Op: "int", S: SInt, Val: big.NewInt(v)}) }
-func (f *TF) IntBig(v *big.Int) *Term    { return f.intern(&Term{Op: "int", S: SInt, Val: new(big.Int).Set(v)}) }
+func (f *TF) IntC(v int64) *Term {
+	if ghostBV {
+		return f.BVi(64, v)
+	}
+	return f.intern(&Term{Op: "int", S: SInt, Val: big.NewInt(v)})
+}
+func (f *TF) IntBig(v *big.Int) *Term {
+	if ghostBV {
+		return f.BV(64, v)
+	}
+	return f.intern(&Term{Op: "int", S: SInt, Val: new(big.Int).Set(v)})
+}
+
+// ghostBV: ghost sequence indices are 64-bit vectors (signed, assumed not to wrap) instead of mathematical integers.
+var ghostBV = false
+
+func GhostIdxSort() *Sort {
+	if ghostBV {
+		return S64
+	}
+	return SInt
+}
 func (t *Term) IsConst() bool            { return t.Op == "bv" || t.Op == "int" || t.Op == "true" || t.Op == "false" }
 func (t *Term) IsTrue() bool             { return t.Op == "true" }
 func (t *Term) IsFalse() bool            { return t.Op == "false" }
@@ -681,6 +701,9 @@ func (f *TF) Ext(a *Term, to int, signed bool) *Term {
 // ---------- ints (ghost sequence indices)
 
 func (f *TF) IAdd(a, b *Term) *Term {
+	if ghostBV {
+		return f.Add(a, b)
+	}
 	if a.Op == "int" && b.Op == "int" {
 		return f.IntBig(new(big.Int).Add(a.Val, b.Val))
 	}
@@ -698,6 +721,9 @@ func (f *TF) IAdd(a, b *Term) *Term {
 	return f.mk("+", SInt, a, b)
 }
 func (f *TF) ISub(a, b *Term) *Term {
+	if ghostBV {
+		return f.Sub(a, b)
+	}
 	if b.Op == "int" {
 		return f.IAdd(a, f.IntBig(new(big.Int).Neg(b.Val)))
 	}
@@ -707,6 +733,9 @@ func (f *TF) ISub(a, b *Term) *Term {
 	return f.mk("-", SInt, a, b)
 }
 func (f *TF) ILe(a, b *Term) *Term {
+	if ghostBV {
+		return f.SLe(a, b)
+	}
 	if a.Op == "int" && b.Op == "int" {
 		return f.Bool(a.Val.Cmp(b.Val) <= 0)
 	}
@@ -716,6 +745,9 @@ func (f *TF) ILe(a, b *Term) *Term {
 	return f.mk("<=", SBool, a, b)
 }
 func (f *TF) ILt(a, b *Term) *Term {
+	if ghostBV {
+		return f.SLt(a, b)
+	}
 	if a.Op == "int" && b.Op == "int" {
 		return f.Bool(a.Val.Cmp(b.Val) < 0)
 	}
